@@ -51,6 +51,9 @@ type GenesisCase struct {
 	Eth1Cred    []bool `json:"eth1_cred"`
 	GenesisTime uint64 `json:"genesis_time"`
 	Eth1Seed    uint64 `json:"eth1_seed"`
+	// OddCreds: some non-eth1 credentials (of genesis validators and of later deposits) carry a prefix
+	// other than 0x00/0x01 in front of hash(withdrawal pubkey)[1:] — credentials are opaque to deposits
+	OddCreds bool `json:"odd_creds,omitempty"`
 }
 
 // AmountTable (Gwei) relative to a 32 ETH MAX_EFFECTIVE_BALANCE.
@@ -111,6 +114,7 @@ type Chain struct {
 	// KeySwapFrom > 0: keys of NEW validators are taken in pairwise swapped order from this counter
 	// value on (k, k+1 -> k+1, k): the same deposits as a sibling chain, in another order.
 	KeySwapFrom uint64
+	OddCreds    bool
 	Included      map[[2]uint64]bool
 	Eth1Cand      refspec.Eth1Data
 	execCtr       uint64
@@ -124,6 +128,22 @@ func blsCredFor(k uint64) (wc [32]byte) {
 	wc[0] = refspec.BLS_WITHDRAWAL_PREFIX
 	return
 }
+// credFor: the withdrawal credentials the chain gives key k.
+func (c *Chain) credFor(k uint64, eth1 bool) [32]byte {
+	if eth1 {
+		return eth1CredFor(k)
+	}
+	wc := blsCredFor(k)
+	if c.OddCreds {
+		switch k % 5 {
+		case 3:
+			wc[0] = 0x02
+		case 4:
+			wc[0] = 0xff
+		}
+	}
+	return wc
+}
 func eth1CredFor(k uint64) (wc [32]byte) {
 	wc[0] = refspec.ETH1_ADDRESS_WITHDRAWAL_PREFIX
 	for i := 12; i < 32; i++ {
@@ -136,11 +156,7 @@ var depSigMemo = map[[32]byte][96]byte{}
 
 func (c *Chain) depositData(k uint64, eth1 bool, amount uint64, goodSig bool) refspec.DepositData {
 	d := refspec.DepositData{Pubkey: refspec.KeyPubkey(k), Amount: amount}
-	if eth1 {
-		d.WithdrawalCredentials = eth1CredFor(k)
-	} else {
-		d.WithdrawalCredentials = blsCredFor(k)
-	}
+	d.WithdrawalCredentials = c.credFor(k, eth1)
 	msg := c.Sp.HTR("DepositMessage", d.MessageV())
 	sr := c.Sp.ComputeSigningRoot(msg, c.Sp.ComputeDomain(refspec.DOMAIN_DEPOSIT, c.Sp.P.ForkVersions[refspec.Phase0], Root{}))
 	signer := k
@@ -161,7 +177,7 @@ func (c *Chain) depositData(k uint64, eth1 bool, amount uint64, goodSig bool) re
 // genesis construction itself is C13's subject) and the deposit tree that matches it.
 func NewChain(cfg *refspec.Config, g *GenesisCase) (*Chain, error) {
 	sp := refspec.NewSpec(cfg)
-	c := &Chain{Cfg: cfg, Sp: sp, KeyOf: map[[48]byte]uint64{}, Included: map[[2]uint64]bool{}, UpgradeEpochs: map[uint64]bool{}}
+	c := &Chain{Cfg: cfg, Sp: sp, KeyOf: map[[48]byte]uint64{}, Included: map[[2]uint64]bool{}, UpgradeEpochs: map[uint64]bool{}, OddCreds: g.OddCreds}
 	p := sp.P
 	s := &refspec.State{Fork: refspec.Phase0}
 	s.GenesisTime = g.GenesisTime
@@ -181,11 +197,7 @@ func NewChain(cfg *refspec.Config, g *GenesisCase) (*Chain, error) {
 		k := uint64(i)
 		amt := AmountTable[g.AmountClass[i]%len(AmountTable)]
 		d := refspec.DepositData{Pubkey: refspec.KeyPubkey(k), Amount: amt}
-		if g.Eth1Cred[i] {
-			d.WithdrawalCredentials = eth1CredFor(k)
-		} else {
-			d.WithdrawalCredentials = blsCredFor(k)
-		}
+		d.WithdrawalCredentials = c.credFor(k, g.Eth1Cred[i])
 		// genesis deposits are never re-verified: a placeholder signature is enough
 		d.Signature[0] = 0xc0
 		c.Datas = append(c.Datas, d)
